@@ -89,6 +89,7 @@ _NAME_EXTRA = [  # refinements that add properties regardless of file
     (r"secp256k1_ecdsa_s2c_sign|secp256k1_anti_exfil", {"C15", "C01"}),
     (r"secp256k1_ecdsa_sign_inner", {"C15"}),
     (r"secp256k1_ecdsa_sign_recoverable|secp256k1_ecdsa_recover", {"C01"}),
+    (r"secp256k1_sha256_write$", {"C20"}),     # where the replaceable compression callback of the context is invoked
     (r"secp256k1_fe_cmp_var$", {"C01"}),      # its only library caller is the r + n < p decision of ECDSA verification
 ]
 
